@@ -145,6 +145,14 @@ Closers == {"|}", "SP|}", "]]", "]", "}}", "}}}", "</B >", "</noinclude>", "</in
 \* "*#:" is three list-prefix characters
 Weight(x) == IF x = "*#:" THEN 3 ELSE 1
 
+\* the lexemes whose interpretation depends on the site language (namespace names, image
+\* modifiers, magic words, template expansion): texts containing one are parsed for every bundled
+\* language, the others for a rotating subset (harness planning only; no verdict depends on it)
+LangSensitive == {"[[", "]]", "[[:", "[[Image:a.png|", "Image:a.png", "File:", "Category:", "en:", "wikt:", "thumb",
+                  "100px", "x20px", "upright=", "link=", "alt=", "__TOC__", "__NOTOC__", "__END__",
+                  "<gallery>", "<gallery caption=x>", "<imagemap>", "<pages from=1 to=2 index=x/>", "<pages from=a to=b/>",
+                  "rect 0 0 1 1 [[a]]", "default [[a]]"} \cup TemplateSyntax
+
 VARIABLES seq, nest, peak
 vars == <<seq, nest, peak>>
 
@@ -184,5 +192,6 @@ AlphabetsNested == Core \subseteq Extended /\ Extended \subseteq Markup /\ Marku
 EmitSeq == (Len(seq) >= EmitFrom) =>
              PrintT("@@" \o ToJson([s |-> seq, net |-> nest, peak |-> peak]))
 \* once per run: the alphabet itself, so that the harness can check its concretisation table
-ASSUME PrintT("@@" \o ToJson([alphabet |-> Lexemes, openers |-> Openers \cap Lexemes, closers |-> Closers \cap Lexemes]))
+ASSUME PrintT("@@" \o ToJson([alphabet |-> Lexemes, openers |-> Openers \cap Lexemes, closers |-> Closers \cap Lexemes,
+                              structural |-> Structural \cap Lexemes, langsensitive |-> LangSensitive \cap Lexemes]))
 =============================================================================
